@@ -20,7 +20,8 @@ RULE = ("table cases as in C12 restricted to records with explicit fields or nam
         "format object (fmt_obj=) with other records; at every state str(t.fmt) is checked through the "
         "constructor and (when the generated flag says so) through the setter, before and after printing. Non-trivial = "
         "a state that is 'printed' with a ranged (min<max) column, or with active limits, or with a repeated / hidden "
-        "field; distinct by case hash.")
+        "field; distinct by case hash."
+        " Also: stale (n) annotations, limits=(n, None), sql-like field names such as count(*), str-subclass values, centred field type (all through vlib/tables).")
 ASSUMPTIONS = [
     "value-path ('<-') columns and plain tuples without field names are outside the claimed domain",
     "'same rendering' = identical no-colour text and identical coloured text under the global configuration",
